@@ -28,6 +28,8 @@ def run(ctx, rep):
     value_equality(F, rep)
     element_store(F, rep)
     map_delegation(F, rep)
+    from props import _hashkeys
+    _hashkeys.run(F, rep)
     if _casts is not None:
         _casts.run_c13(F, rep)
 
